@@ -32,6 +32,7 @@ def Op.WF (s : TermState) : Op → Prop
   | .moveCursor p => 0 ≤ p.x ∧ p.x < s.size.width ∧ 0 ≤ p.y ∧ p.y < s.size.height
   | .setTitle t => titleClean t = true
   | .setSize _ => False                                   -- size changes are `Ev.resize`
+  | .rawWrite _ => False                                  -- raw bytes bypass the encoder: outside these properties
   | _ => True
 
 def Ev.WF (s : TermState) : Ev → Prop
